@@ -213,7 +213,28 @@ func vxC09Oracle(job vxJob, o vxOutcome) (sig, msg string) {
 	if bad := vxFansRestored(job, o); len(bad) > 0 && !fallbackFaulted {
 		return "C09 fan not restored when regulation ended", cls() + ": " + strings.Join(bad, "; ")
 	}
+	// "keeps regulating": with a moving target and nothing but failing PWM READS, the fan must be where the fault-free run has it
+	if job.TempStepTo > 0 && len(job.Faults) > 0 {
+		if got, ok := vxFinalRegulating(o, job.Fans[0].ID); !ok {
+			return "C09 harness: no final PWM sample", strings.Join(o.Events, " | ")
+		} else if got != job.ExpectFinalPwm {
+			return "C09 fan2go stops following the curve while PWM reads fail", fmt.Sprintf("%s: just before the final SIGTERM the fan is at PWM %d, the fault-free run of the same job has it at %d (sensor jumped from 60000 to %d during window 1)", cls(), got, job.ExpectFinalPwm, job.TempStepTo)
+		}
+	}
 	return "", ""
+}
+
+// vxFinalRegulating: device PWM of the fan sampled just before the final SIGTERM.
+func vxFinalRegulating(o vxOutcome, id string) (int, bool) {
+	for _, e := range o.Events {
+		if i := strings.Index(e, " regulating "+id+" pwm="); i >= 0 {
+			v := 0
+			if _, err := fmt.Sscanf(e[i+len(" regulating "+id+" pwm="):], "%d", &v); err == nil {
+				return v, true
+			}
+		}
+	}
+	return 0, false
 }
 
 func TestVX_C09(t *testing.T) {
@@ -330,6 +351,45 @@ func TestVX_C09(t *testing.T) {
 				}
 			}
 		}
+	}
+	// "keeps regulating": moving target (sensor step) and PWM-read faults only; expected value = the fault-free run of the same job
+	for _, fk := range []string{"hwmon", "file", "cmd"} {
+		base := vxJob{Fans: []vxJobFan{{ID: "fanA", Kind: fk, OrigMode: 2, OrigPwm: 70, Stored: true}}, Sensor: "hwmon", Curve: "linear", Cycles: 7, TempStepTo: 75000}
+		if fk != "hwmon" {
+			base.Fans[0].OrigMode = -1
+		}
+		var fam []vxJob
+		for _, k := range []string{"error", "garbage"} {
+			for _, w := range []int{1, 2, 4} {
+				j := base
+				j.Faults = []vxFault{{Component: "pwmread", Kind: k, Window: w}}
+				fam = append(fam, j)
+			}
+			j := base
+			j.Faults = []vxFault{{Component: "pwmread", Kind: k, Window: 2, Persist: true}}
+			fam = append(fam, j)
+		}
+		mineAny := false
+		for i := range fam {
+			if mc.Mine(len(jobs) + i) {
+				mineAny = true
+			}
+		}
+		if mineAny {
+			ref := vxRunJob(scratch, base, atomic.AddInt64(&vxJobSeq, 1))
+			v, ok := vxFinalRegulating(ref, "fanA")
+			if !ok || v <= 127 {
+				rep.HarnessError(fmt.Sprintf("keeps-regulating reference run (%s fan) did not follow the sensor step: final PWM %d ok=%v events %v", fk, v, ok, ref.Events))
+			}
+			if sig, msg := vxC09Oracle(base, ref); sig != "" {
+				rep.Violate(mc.Violation{Property: "C09", Signature: sig, Detail: msg + "\njob: " + base.Describe(), Replay: vxC09Case{base}})
+			}
+			for i := range fam {
+				fam[i].ExpectFinalPwm = v
+			}
+			rep.Sample(map[string]any{"keeps_regulating_reference": base.Describe(), "final_pwm_fault_free": v})
+		}
+		jobs = append(jobs, fam...)
 	}
 	rep.Count("jobs_total", int64(len(jobs)))
 	deadline := mc.Deadline(75*time.Second, 13*time.Minute)
